@@ -238,7 +238,7 @@ def c05_one(w, inp, c):
 
 def run_C05(w):
     for inp, c in programs(w):
-        c05_one(w, inp, c)
+        w.guard(c05_one, w, inp, c)
     n = {'quick': 120, 'search': 200}.get(w.tier, 2500)
     items = exec_sources(w.seed, n)
     fixed_exec = ["x = 1\nprint(x)\n", "def f(a, b=1, *c, d, **e):\n    return a, b, c, d, e\nprint(f(1, 2, 3, d=4, z=5))\n",
@@ -256,7 +256,7 @@ def run_C05(w):
             if e is not None:
                 w.stats['exec_program_syntax_error'] += 1
                 break
-            c05_one(w, inp, c)
+            w.guard(c05_one, w, inp, c)
 
 
 # ------------------------------------------------------------------------------------------------
@@ -339,7 +339,7 @@ def c06_one(w, inp, c):
 
 def run_C06(w):
     for inp, c in programs(w):
-        c06_one(w, inp, c)
+        w.guard(c06_one, w, inp, c)
 
 
 props.RUN['C05'] = run_C05
